@@ -329,7 +329,7 @@ def gen_latent(rng, fam, mode="rand"):
         elif style < 0.65: s = list(range(n))                                # everybody
         else: s = [rng.randrange(n) for _ in range(k)]                       # with repeats (integer-count reading)
         k = len(s)
-    if fam == "gb": d["nbestfndr"] = rng.randint(1, k)
+    if fam == "gb": d["nbestfndr"] = rng.randint(1, min(k, n))       # the setter bounds it by the number of candidates
     perm = list(range(k)); rng.shuffle(perm)
     if rng.random() < 0.1: perm = perm[::-1]
     a = rng.choice([2.0, 0.5, 4.0, 3.0, 0.375, 1.5, 7.0, 0.0625, 1024.0])
@@ -454,7 +454,7 @@ def pred_latent(case, out):
         if isinstance(v, dict) and "exc" in v:
             bad.append("%s raised %s: %s" % (key, v["exc"], v["msg"]))
     if bad: return bad
-    if out["nlatent"] != nlatent_of(fam, d): bad.append("nlatent %r != %d" % (out["nlatent"], nlatent_of(fam, d)))
+    # (nlatent is checked by the separate "nlatent" case kind so that its known finding does not mask latent-value failures)
     c = [F(v, k) for v in cnt]
     want = defn(fam, d, c, s)
     sub = _frl(out["sub"])
@@ -511,3 +511,528 @@ def pred_latent(case, out):
     for b in bad:
         if b not in seen: seen.append(b)
     return seen[:8]
+
+# ------------------------------------------------------------------------------------------------ Coq emission
+def _q(v): return E.q(Fraction(v))
+def _ql(l): return E.lst(l, _q)
+def _ql2(m): return E.lst2(m, _q)
+def _ql3(m): return E.lst3(m, _q)
+def _ql4(m): return "[" + "; ".join(_ql3(x) for x in m) + "]"
+def _natl(l): return E.lst(l, E.nat)
+
+def emit_fdata(fam, d):
+    if fam in LINEAR:
+        M = d[FAMILIES[fam][2][0]]
+        return "FLin %s %d %s" % (E.b(fam in GUARDED), len(M[0]), _ql2(M))
+    if fam == "ocs": return "FOcs %d %s %s" % (len(d["ebv"][0]), _ql2(d["ebv"]), _ql2(d["C"]))
+    if fam == "mgr": return "FMgr %s" % _ql2(d["C"])
+    if fam == "meh": return "FMeh %s" % _ql2(d["C"])
+    if fam == "l2": return "FL2 %s" % _ql3(d["C"])
+    if fam == "l1": return "FL1 %s" % _ql3(d["V"])
+    if fam == "fam": return "FFam %d %s %s" % (len(d["ebv"][0]), _ql2(d["ebv"]), E.lst(d["familyid"], E.z))
+    if fam in ("pafd", "pau", "mogs"):
+        return "%s %s %s %s %s %d %d" % ({"pafd": "FPafd", "pau": "FPau", "mogs": "FMogs"}[fam], E.z(d["ploidy"]), E.lst2(d["geno"], E.z),
+                                         _ql2(d["mkrwt"]), _ql2(d["tfreq"]), len(d["mkrwt"]), len(d["mkrwt"][0]))
+    H = d["haplomat"]
+    if fam == "opv": return "FOpv %s %d %d" % (_ql4(H), len(H[0][0]), len(H[0][0][0]))
+    if fam == "gb": return "FGb %s %d %d %d" % (_ql4(H), len(H[0][0]), len(H[0][0][0]), d["nbestfndr"])
+    raise ValueError(fam)
+
+def _oimpl(v):
+    """implementation latent vector -> Coq option (list Q); nan/inf/exception -> None"""
+    l = _frl(v)
+    return "None" if l is None else "(Some %s)" % E.lst(l, E.q)
+
+def emit_trans(spec, default):
+    k = spec[0]
+    if k == "none": k = default
+    return {"id": "TId", "empty": "TEmpty", "sum": "TSum"}.get(k) or ("(TDot %s)" % _ql(spec[1]) if k == "dot" else
+            "(TDecnSum %s)" % _q(spec[1]) if k == "decnsum" else "(TMix %s)" % _q(spec[1]))
+
+def _is_pow2(v):
+    f = Fraction(v)
+    return f > 0 and (f.numerator & (f.numerator - 1)) == 0 and (f.denominator & (f.denominator - 1)) == 0
+
+def emit_latent(case, out):
+    fam, d, s, ev = case["fam"], case["data"], case["s"], case["eval"]
+    n, k = _ncand(fam, d), len(s)
+    cnt = _counts(n, s)
+    head = "let fd := %s in let n := %d%%nat in\n  " % (emit_fdata(fam, d), n)
+    parts = []
+    sub = "(DSub %s)" % _natl(s)
+    # exact comparison where every float operation of the source is exact (dyadic data, k a power of two, short sums)
+    ex_sub = E.b(fam in LINEAR + ("l1", "fam", "opv") and _is_pow2(k))
+    parts.append("agree %s %s (latent n fd %s)" % (ex_sub, _oimpl(out["sub"]), sub))
+    parts.append("agree %s %s (latent n fd (DSub %s))" % (ex_sub, _oimpl(out["sub_perm"]), _natl([s[i] for i in case["perm"]])))
+    tr = "%s %s %s %s %s %s" % (emit_trans(ev["obj"][0], "id"), emit_trans(ev["ineq"][0], "empty"), emit_trans(ev["eq"][0], "empty"),
+                                _ql(ev["obj"][1]), _ql(ev["ineq"][1]), _ql(ev["eq"][1]))
+    def evterm(key, x, latkey):
+        got, lat = out.get(key), _frl(out.get(latkey))
+        if got is None or isinstance(got, dict) or lat is None: return None
+        g = [_frl(v) for v in got]
+        if any(v is None for v in g): return None
+        return "ev_close (%s, %s, %s) (evalfn_enum %s %s %s)" % (E.lst(g[0], E.q), E.lst(g[1], E.q), E.lst(g[2], E.q), tr, _ql(x), E.lst(lat, E.q))
+    parts.append(evterm("ev_sub", s, "sub"))
+    if fam not in SUBSET_ONLY:
+        a = case["a"]
+        vec = lambda x: "(DVec %s)" % _ql(x)
+        xc = [float(v) for v in cnt]
+        ex_vec = ex_sub
+        parts.append("agree %s %s (latent n fd %s)" % (ex_vec, _oimpl(out["int"]), vec(xc)))
+        if "bin" in out:
+            parts.append("agree %s %s (latent n fd %s)" % (ex_vec, _oimpl(out["bin"]), vec(xc)))
+            parts.append("agree %s %s (latent n fd %s)" % (ex_vec, _oimpl(out["binb"]), vec(xc)))
+            parts.append(evterm("ev_bin", xc, "bin"))
+        parts.append("agree false %s (latent n fd %s)" % (_oimpl(out["real"]), vec([v / k for v in xc])))
+        parts.append("agree false %s (latent n fd %s)" % (_oimpl(out["real_a"]), vec([a * v for v in xc])))
+        parts.append("agree false %s (latent n fd %s)" % (_oimpl(out["xr"]), vec(case["xr"])))
+        parts.append("agree false %s (latent n fd %s)" % (_oimpl(out["xr_a"]), vec([a * v for v in case["xr"]])))
+        parts.append("agree false %s (latent n fd %s)" % (_oimpl(out["xi"]), vec(case["xi"])))
+        z = vec([0.0] * n)
+        for key in ("zero_int", "zero_bin", "zero_real"):
+            parts.append("agree false %s (latent n fd %s)" % (_oimpl(out[key]), z))
+        parts.append(evterm("ev_real", case["xr"], "xr"))
+        parts.append(evterm("ev_int", case["xi"], "xi"))
+    return head + "(" + "\n   && ".join(p for p in parts if p) + ")"
+
+# ------------------------------------------------------------------------------------------------ factory clause
+def gen_pop(rng, homozygous=False, n=None):
+    n = n or rng.randint(2, 5)
+    nchr = rng.choice([1, 2, 2])
+    per = [rng.randint(2, 3) for _ in range(nchr)]
+    p = sum(per)
+    t = rng.choice([1, 2, 2])
+    h0 = [[rng.randint(0, 1) for _ in range(p)] for _ in range(n)]
+    h1 = h0 if homozygous else [[rng.randint(0, 1) for _ in range(p)] for _ in range(n)]
+    labels = rng.sample(range(10, 40), n)                     # taxa names in no particular order
+    grp = [rng.choice([1, 2, 3]) for _ in range(n)]           # family labels, not sorted
+    chrgrp = [c + 1 for c in range(nchr) for _ in range(per[c])]
+    genpos = []
+    for c in range(nchr):
+        x = 0.0
+        for _ in range(per[c]):
+            genpos.append(x); x += rng.randint(1, 8) / 16
+    u = [[rng.choice([0.0, 0.0, 1.0, -1.0, 0.5, -0.5, 2.0, 0.25, -2.0, 3.0]) for _ in range(t)] for _ in range(p)]
+    for q in range(t):
+        if all(u[j][q] == 0 for j in range(p)): u[rng.randrange(p)][q] = 1.0
+    return {"hap": [h0, h1], "labels": labels, "grp": grp, "chrgrp": chrgrp, "genpos": genpos,
+            "xoprob": [0.5 if (j == 0 or chrgrp[j] != chrgrp[j - 1]) else rng.randint(1, 6) / 16 for j in range(p)],
+            "u": u, "beta": [_dy(rng) for _ in range(t)],
+            "bv": {"mat": _mat(rng, n, t), "location": [_dy(rng) for _ in range(t)], "scale": [rng.choice([1.0, 0.5, 2.0, 1.5]) for _ in range(t)]}}
+
+FACTORIES = ["ebv", "gebv_bvmat", "gebv_gmat", "gwgebv", "wgs", "ocs", "mgr", "meh", "l2", "l1", "fam", "uc", "uc_xmap", "ohv", "opv", "gb",
+             "pafd", "pau", "mogs", "embv", "rand", "wgebvmat", "embvmat"]
+
+def gen_factory(rng, which):
+    homo = which in ("embv", "embvmat")
+    pop = gen_pop(rng, homozygous=homo)
+    n, p, t = len(pop["labels"]), len(pop["chrgrp"]), len(pop["beta"])
+    args = {"unscale": rng.random() < 0.5, "phased": rng.random() < 0.5}
+    if which == "gwgebv": args["alpha"] = rng.choice([0.0, 1.0, 2.0, 0.5])
+    if which in ("uc", "uc_xmap", "ohv"):
+        args.update(nparent=2, unique=rng.random() < 0.5, nprogeny=rng.choice([5, 10]), pct=rng.choice([0.1, 0.25, 0.5]))
+    if which == "uc_xmap":
+        args["xmap"] = [[rng.randrange(n), rng.randrange(n)] for _ in range(rng.randint(1, 4))]
+    if which in ("ohv", "opv", "gb"):
+        nchr = len(set(pop["chrgrp"]))
+        args["nhaploblk"] = rng.randint(nchr, min(p, nchr + 2))
+    if which == "gb": args["nbestfndr"] = rng.randint(1, n)
+    if which == "embv": args.update(nrep=rng.choice([1, 2, 3]), nprogeny=rng.choice([1, 2]), unique=rng.random() < 0.5)
+    if which == "embvmat": args.update(nrep=rng.choice([1, 2]), nprogeny=rng.choice([1, 3]))
+    if which in ("pafd", "pau", "mogs"):
+        args["callable"] = rng.random() < 0.5
+        args["mkrwt"] = [[rng.randint(0, 16) / 8 for _ in range(t)] for _ in range(p)]
+        args["tfreq"] = [[rng.choice([0.0, 1.0, 0.5, 0.25]) for _ in range(t)] for _ in range(p)]
+    if which == "l1":
+        args["tfreq"] = [[rng.choice([0.0, 1.0, 0.5, 0.25]) for _ in range(t)] for _ in range(p)]
+    if which == "rand":
+        args["normals"] = [[_dy(rng) for _ in range(t)] for _ in range(n)]
+    return {"kind": "factory", "which": which, "pop": pop, "args": args}
+
+def build_pop(pop, phased=True):
+    from pybrops.popgen.gmat.DensePhasedGenotypeMatrix import DensePhasedGenotypeMatrix
+    from pybrops.popgen.gmat.DenseGenotypeMatrix import DenseGenotypeMatrix
+    from pybrops.popgen.bvmat.DenseBreedingValueMatrix import DenseBreedingValueMatrix
+    from pybrops.model.gmod.DenseAdditiveLinearGenomicModel import DenseAdditiveLinearGenomicModel
+    hap = numpy.array(pop["hap"], dtype="int8")
+    taxa = numpy.array(["L%02d" % v for v in pop["labels"]], dtype=object)
+    grp = numpy.array(pop["grp"], dtype=int)
+    p = hap.shape[2]
+    vk = dict(vrnt_chrgrp=numpy.array(pop["chrgrp"], dtype=int), vrnt_phypos=numpy.arange(1, p + 1) * 10, vrnt_genpos=numpy.array(pop["genpos"], dtype=float),
+              vrnt_xoprob=numpy.array(pop["xoprob"], dtype=float))
+    if phased: g = DensePhasedGenotypeMatrix(mat=hap, taxa=taxa, taxa_grp=grp, **vk)
+    else: g = DenseGenotypeMatrix(mat=hap.sum(0).astype("int8"), taxa=taxa, taxa_grp=grp, ploidy=2, **vk)
+    g.group_vrnt()
+    t = len(pop["beta"])
+    gmod = DenseAdditiveLinearGenomicModel(beta=numpy.array([pop["beta"]], dtype=float), u_misc=None, u_a=numpy.array(pop["u"], dtype=float),
+                                           trait=numpy.array(["T%d" % q for q in range(t)], dtype=object))
+    b = pop["bv"]
+    bv = DenseBreedingValueMatrix(mat=numpy.array(b["mat"], dtype=float), location=numpy.array(b["location"], dtype=float), scale=numpy.array(b["scale"], dtype=float),
+                                  taxa=taxa, taxa_grp=grp)
+    return g, gmod, bv
+
+def _space(enc, n, k=1, nobj=1):
+    k = max(1, min(k, n))
+    if enc == "Subset": return dict(ndecn=k, decn_space=numpy.arange(n), decn_space_lower=numpy.repeat(0, k), decn_space_upper=numpy.repeat(n - 1, k), nobj=nobj)
+    if enc == "Real": return dict(ndecn=n, decn_space=numpy.stack([numpy.zeros(n), numpy.ones(n)]), decn_space_lower=numpy.zeros(n), decn_space_upper=numpy.ones(n), nobj=nobj)
+    if enc == "Integer": return dict(ndecn=n, decn_space=numpy.stack([numpy.zeros(n, dtype=int), numpy.repeat(4, n)]), decn_space_lower=numpy.zeros(n, dtype=int), decn_space_upper=numpy.repeat(4, n), nobj=nobj)
+    return dict(ndecn=n, decn_space=numpy.stack([numpy.zeros(n, dtype=int), numpy.ones(n, dtype=int)]), decn_space_lower=numpy.zeros(n, dtype=int), decn_space_upper=numpy.ones(n, dtype=int), nobj=nobj)
+
+def _arr(a):
+    a = numpy.asarray(a)
+    if a.dtype.kind in "iub": return a.astype(int).tolist()
+    return numpy.vectorize(lambda v: float(v).hex(), otypes=[object])(a.astype(float)).tolist() if a.size else a.tolist()
+
+def _w_abs(u): return numpy.absolute(u)
+def _t_sign(u): return numpy.where(u > 0.0, 1.0, 0.0)
+
+def run_factory(case):
+    which, pop, A = case["which"], case["pop"], case["args"]
+    n, p, t = len(pop["labels"]), len(pop["chrgrp"]), len(pop["beta"])
+    out = {}
+    fam = {"gebv_bvmat": "gebv", "gebv_gmat": "gebv", "uc_xmap": "uc"}.get(which, which)
+    if which == "wgebvmat":
+        from pybrops.model.wgebvmat.DenseWeightedGenomicEstimatedBreedingValueMatrix import DenseWeightedGenomicEstimatedBreedingValueMatrix as W
+        g, gmod, bv = build_pop(pop, A["phased"])
+        def f():
+            with numpy.errstate(all="ignore"): m = W.from_algmod(gmod, g)
+            return {"mat": _arr(m.unscale()), "taxa": [str(v) for v in m.taxa], "taxa_grp": _arr(m.taxa_grp)}
+        out["obj"] = _try(f); return out
+    if which == "embvmat":
+        from pybrops.model.embvmat.DenseExpectedMaximumBreedingValueMatrix import DenseExpectedMaximumBreedingValueMatrix as M
+        g, gmod, bv = build_pop(pop, True)
+        def f():
+            m = M.from_gmod(gmod, g, A["nprogeny"], A["nrep"])
+            return {"mat": _arr(m.unscale()), "taxa": [str(v) for v in m.taxa], "taxa_grp": _arr(m.taxa_grp)}
+        out["obj"] = _try(f); return out
+    encs = ("Subset",) if fam in SUBSET_ONLY else ENCODINGS
+    for enc in encs:
+        cls = _cls(fam, enc)
+        def f():
+            phased = True if which in ("uc", "uc_xmap", "ohv", "opv", "gb", "embv") else A["phased"]
+            g, gmod, bv = build_pop(pop, phased)
+            with numpy.errstate(all="ignore"):
+                if which == "ebv":
+                    pr = cls.from_bvmat(bv, A["unscale"], **_space(enc, n)); return {"ebv": _arr(pr.ebv)}
+                if which == "gebv_bvmat":
+                    pr = cls.from_bvmat(bv, A["unscale"], **_space(enc, n)); return {"gebv": _arr(pr.gebv)}
+                if which == "gebv_gmat":
+                    pr = cls.from_gmat_gpmod(g, gmod, A["unscale"], **_space(enc, n)); return {"gebv": _arr(pr.gebv)}
+                if which == "gwgebv":
+                    pr = cls.from_gmat_algpmod(g, gmod, A["alpha"], **_space(enc, n)); return {"gwgebv": _arr(pr.gwgebv)}
+                if which == "wgs":
+                    pr = cls.from_gmat_algpmod(g, gmod, **_space(enc, n)); return {"gwgebv": _arr(pr.gwgebv)}
+                if which in ("ocs", "mgr", "meh", "l2"):
+                    from pybrops.popgen.cmat.fcty.DenseMolecularCoancestryMatrixFactory import DenseMolecularCoancestryMatrixFactory
+                    fc = DenseMolecularCoancestryMatrixFactory()
+                    if which == "ocs":
+                        pr = cls.from_bvmat_gmat(bv, g, fc, A["unscale"], **_space(enc, n, nobj=1 + t)); return {"ebv": _arr(pr.ebv), "C": _arr(pr.C)}
+                    if which == "l2":
+                        pr = cls.from_gmat(g, fc, numpy.array(pop["u"], dtype=float), gmod.fafreq(g), **_space(enc, n, nobj=t)); return {"C": _arr(pr.C)}
+                    pr = cls.from_gmat(g, fc, **_space(enc, n)); return {"C": _arr(pr.C)}
+                if which == "l1":
+                    pr = cls.from_numpy(numpy.array(pop["u"], dtype=float), g.tafreq(), numpy.array(A["tfreq"], dtype=float), **_space(enc, n, nobj=t)); return {"V": _arr(pr.V)}
+                if which == "fam":
+                    pr = cls.from_bvmat(bv, **_space(enc, n)); return {"ebv": _arr(pr.ebv), "familyid": _arr(pr.familyid)}
+                if which in ("uc", "uc_xmap"):
+                    from pybrops.model.vmat.fcty.DenseTwoWayDHAdditiveGeneticVarianceMatrixFactory import DenseTwoWayDHAdditiveGeneticVarianceMatrixFactory as VF
+                    from pybrops.popgen.gmap.HaldaneMapFunction import HaldaneMapFunction
+                    nx = len(A["xmap"]) if which == "uc_xmap" else (n * (n - 1) // 2 if A["unique"] else n * (n + 1) // 2)
+                    if nx == 0: return {"skip": True}
+                    base = (2, 1, A["nprogeny"], 0, A["pct"], VF(), HaldaneMapFunction(), A["unique"], g, gmod)
+                    if which == "uc": pr = cls.from_pgmat_gpmod(*base, **_space(enc, nx, nobj=t))
+                    else: pr = cls.from_pgmat_gpmod_xmap(*base, numpy.array(A["xmap"], dtype=int), **_space(enc, nx, nobj=t))
+                    vm = VF().from_gmod(gmod, g, 1, A["nprogeny"], 0, HaldaneMapFunction())
+                    return {"ucmat": _arr(pr.ucmat), "xmap": _arr(pr.decn_space_xmap), "vmat": _arr(vm.mat), "epgc": [float(v) for v in vm.epgc]}
+                if which == "ohv":
+                    nx = n * (n - 1) // 2 if A["unique"] else n * (n + 1) // 2
+                    if nx == 0: return {"skip": True}
+                    pr = cls.from_pgmat_gpmod(2, A["nhaploblk"], A["unique"], g, gmod, **_space(enc, nx, nobj=t))
+                    return {"ohvmat": _arr(pr.ohvmat), "xmap": _arr(pr.decn_space_xmap), "bounds": _block_bounds(g, A["nhaploblk"])}
+                if which == "opv":
+                    pr = cls.from_pgmat_gpmod(A["nhaploblk"], g, gmod, **_space(enc, n, nobj=t)); return {"haplomat": _arr(pr.haplomat), "ploidy": int(pr.ploidy), "bounds": _block_bounds(g, A["nhaploblk"])}
+                if which == "gb":
+                    pr = cls.from_pgmat_gpmod(g, gmod, A["nhaploblk"], A["nbestfndr"], **_space(enc, n, nobj=t))
+                    return {"haplomat": _arr(pr.haplomat), "nbestfndr": int(pr.nbestfndr), "bounds": _block_bounds(g, A["nhaploblk"])}
+                if which in ("pafd", "pau", "mogs"):
+                    w = _w_abs if A["callable"] else numpy.array(A["mkrwt"], dtype=float)
+                    tg = _t_sign if A["callable"] else numpy.array(A["tfreq"], dtype=float)
+                    pr = cls.from_gmat_gpmod(g, w, tg, gmod, **_space(enc, n, nobj=t))
+                    return {"geno": _arr(pr.geno), "ploidy": int(pr.ploidy), "mkrwt": _arr(pr.mkrwt), "tfreq": _arr(pr.tfreq)}
+                if which == "embv":
+                    from pybrops.breed.prot.mate.SelfCross import SelfCross
+                    pr = cls.from_pgmat_gpmod(1, 1, A["nprogeny"], A["nrep"], A["unique"], g, gmod, SelfCross(), **_space(enc, n, nobj=t))
+                    return {"embv": _arr(pr.embv), "xmap": _arr(pr.decn_space_xmap)}
+                if which == "rand":
+                    import importlib
+                    from rngscript import Scripted
+                    mod = importlib.import_module(P + "RandomSelectionProblem")
+                    old = mod.global_prng
+                    mod.global_prng = Scripted(normals=[[v for r in A["normals"] for v in r]])
+                    try: pr = cls.from_object(n, t, **_space(enc, n, nobj=t))
+                    finally: mod.global_prng = old
+                    return {"rbv": _arr(pr.rbv)}
+            raise ValueError(which)
+        out[enc] = _try(f)
+    return out
+
+def _block_bounds(g, nhaploblk):
+    """haplotype block boundaries, from pybrops' own binning utilities (property C18; trusted here)"""
+    from pybrops.core.util.haplo import nhaploblk_chrom, haplobin, haplobin_bounds
+    nblk = nhaploblk_chrom(nhaploblk, g.vrnt_genpos, g.vrnt_chrgrp_stix, g.vrnt_chrgrp_spix)
+    hb = haplobin(nblk, g.vrnt_genpos, g.vrnt_chrgrp_stix, g.vrnt_chrgrp_spix)
+    st, sp, _ = haplobin_bounds(hb)
+    return [[int(a), int(b)] for a, b in zip(st, sp)]
+
+def _unhex(a):
+    """nested lists of hex strings / ints -> nested lists of floats"""
+    if isinstance(a, list): return [_unhex(v) for v in a]
+    return float.fromhex(a) if isinstance(a, str) else float(a)
+
+def _near(a, b, tol=2.0 ** -30):
+    a = numpy.asarray(a, dtype=float); b = numpy.asarray(b, dtype=float)
+    if a.shape != b.shape: return False
+    if a.size == 0: return True
+    if not (numpy.all(numpy.isfinite(a)) and numpy.all(numpy.isfinite(b))): return False
+    return bool(numpy.all(numpy.abs(a - b) <= tol * (1 + numpy.abs(b))))
+
+def pop_truth(pop):
+    X = (numpy.array(pop["hap"][0]) + numpy.array(pop["hap"][1])).astype(float)
+    u = numpy.array(pop["u"], dtype=float); beta = numpy.array(pop["beta"], dtype=float)
+    n, p = X.shape
+    gebv = X @ u + beta[None, :]
+    c = X.sum(0)[:, None]
+    f = numpy.where(u > 0, c / (2 * n), numpy.where(u < 0, (2 * n - c) / (2 * n), 0.0))     # favourable allele frequency; 0 for no effect
+    return X, u, beta, gebv, f
+
+def pred_factory(case, out):
+    which, pop, A = case["which"], case["pop"], case["args"]
+    X, u, beta, gebv, f = pop_truth(pop)
+    n, p = X.shape; t = u.shape[1]
+    hap = numpy.array(pop["hap"], dtype=float)
+    bvm = numpy.array(pop["bv"]["mat"], dtype=float)
+    bvu = bvm * numpy.array(pop["bv"]["scale"])[None, :] + numpy.array(pop["bv"]["location"])[None, :]
+    taxa = ["L%02d" % v for v in pop["labels"]]
+    bad = []
+    def std(g):
+        loc = g.mean(0); sc = g.std(0); sc = numpy.where(sc == 0, 1.0, sc)
+        return (g - loc[None, :]) / sc[None, :]
+    fg = numpy.where(f == 0, 1.0, f)
+    Xt = X - 1.0
+    K = 0.5 * (1.0 + Xt @ Xt.T / p)
+    for enc, o in out.items():
+        tag = "%s.%s" % (which, enc)
+        if "exc" in o: bad.append("%s factory raised %s: %s" % (tag, o["exc"], o["msg"])); continue
+        if o.get("skip"): continue
+        def chk(key, want, what, tol=2.0 ** -30):
+            if not _near(_unhex(o[key]), want, tol): bad.append("%s: %s != %s of the population in taxon order" % (tag, key, what))
+        def chk_factor(C, what):
+            C = numpy.array(_unhex(C), dtype=float)
+            if not numpy.all(numpy.isfinite(C)): bad.append("%s: %s not finite" % (tag, what)); return
+            if numpy.any(numpy.tril(C, -1) != 0): bad.append("%s: %s is not upper triangular" % (tag, what))
+            G = C.T @ C
+            off = ~numpy.eye(n, dtype=bool)
+            dg = numpy.diag(G) - numpy.diag(K)
+            if not _near(G[off], K[off]) or numpy.any(dg < -1e-9) or numpy.any(dg > 1.1e-6):
+                bad.append("%s: %s' %s != kinship matrix of the population in taxon order" % (tag, what, what))
+        if which == "ebv": chk("ebv", bvu if A["unscale"] else bvm, "breeding values")
+        elif which == "gebv_bvmat": chk("gebv", bvu if A["unscale"] else bvm, "breeding values")
+        elif which == "gebv_gmat": chk("gebv", gebv if A["unscale"] else std(gebv), "genomic breeding values", 2.0 ** -26)
+        elif which == "gwgebv": chk("gwgebv", X @ (u * numpy.power(fg, -A["alpha"])), "generalised weighted breeding values")
+        elif which == "wgs": chk("gwgebv", X @ (u * numpy.power(fg, -0.5)), "weighted breeding values")
+        elif which == "ocs":
+            chk("ebv", bvu if A["unscale"] else bvm, "breeding values"); chk_factor(o["C"], "C")
+        elif which in ("mgr", "meh"): chk_factor(o["C"], "C")
+        elif which == "l2":
+            Cs = _unhex(o["C"])
+            if len(Cs) != t: bad.append("%s: %d factors for %d traits" % (tag, len(Cs), t))
+            for C in Cs: chk_factor(C, "C[trait]")
+        elif which == "l1":
+            tf = numpy.array(A["tfreq"], dtype=float)
+            V = numpy.array([[[u[j, q] * (X[i, j] / 2 - tf[j, q]) for i in range(n)] for j in range(p)] for q in range(t)])
+            chk("V", V, "mkrwt * (taxon frequency - target)")
+        elif which == "fam":
+            chk("ebv", bvm, "breeding values")
+            if o["familyid"] != pop["grp"]: bad.append("%s: familyid != taxa_grp in taxon order" % tag)
+        elif which in ("uc", "uc_xmap"):
+            import scipy.stats
+            xm = A["xmap"] if which == "uc_xmap" else [list(v) for v in (itertools.combinations(range(n), 2) if A["unique"] else itertools.combinations_with_replacement(range(n), 2))]
+            if o["xmap"] != xm: bad.append("%s: cross map != expected list of parent pairs" % tag); continue
+            si = scipy.stats.norm.pdf(scipy.stats.norm.ppf(1.0 - A["pct"])) / A["pct"]
+            vm = numpy.array(_unhex(o["vmat"]), dtype=float)
+            want = numpy.array([[0.5 * gebv[i, q] + 0.5 * gebv[j, q] + si * math.sqrt(max(vm[i, j, q], 0.0)) for q in range(t)] for i, j in xm])
+            chk("ucmat", want, "parental mean + intensity * sqrt(progeny variance) through the cross map", 2.0 ** -26)
+        elif which in ("ohv", "opv", "gb"):
+            bnd = o["bounds"]
+            if len(bnd) != A["nhaploblk"]: continue      # empty haplotype bins: fewer blocks than requested, trailing garbage (property C18's finding)
+            hv = numpy.array([[[[sum(hap[m, i, j] * u[j, q] for j in range(a, b)) for q in range(t)] for a, b in bnd] for i in range(n)] for m in range(2)])
+            if which == "ohv":
+                xm = [list(v) for v in (itertools.combinations(range(n), 2) if A["unique"] else itertools.combinations_with_replacement(range(n), 2))]
+                if o["xmap"] != xm: bad.append("%s: cross map != expected list of parent pairs" % tag); continue
+                want = numpy.array([[2 * sum(max(hv[m, i, b, q] for m in range(2) for i in pair) for b in range(len(bnd))) for q in range(t)] for pair in xm])
+                chk("ohvmat", want, "ploidy * sum over blocks of the best block value over parents and phases")
+            else:
+                chk("haplomat", hv, "haplotype block values")
+                if which == "opv" and o["ploidy"] != 2: bad.append("%s: ploidy" % tag)
+                if which == "gb" and o["nbestfndr"] != A["nbestfndr"]: bad.append("%s: nbestfndr" % tag)
+        elif which in ("pafd", "pau", "mogs"):
+            if o["geno"] != X.astype(int).tolist(): bad.append("%s: geno != genotypes of the population in taxon order" % tag)
+            if o["ploidy"] != 2: bad.append("%s: ploidy" % tag)
+            chk("mkrwt", numpy.absolute(u) if A["callable"] else numpy.array(A["mkrwt"]), "marker weights")
+            chk("tfreq", numpy.where(u > 0, 1.0, 0.0) if A["callable"] else numpy.array(A["tfreq"]), "target frequencies")
+        elif which == "embv":
+            xm = [[i] for i in range(n)]
+            if o["xmap"] != xm: bad.append("%s: cross map != one entry per taxon" % tag); continue
+            chk("embv", gebv, "expected maximum breeding value of the selfed (homozygous) parents = their breeding values")
+        elif which == "rand": chk("rbv", numpy.array(A["normals"]), "the drawn values in draw order")
+        elif which == "wgebvmat":
+            w = numpy.where((f == 0) | (f == 1), 1.0, (math.asin(1.0) - numpy.arcsin(numpy.sqrt(f))) / numpy.sqrt(numpy.where((f == 0) | (f == 1), 1.0, f * (1 - f))))
+            chk("mat", X @ (u * w), "arcsine-weighted breeding values", 2.0 ** -26)
+            if o["taxa"] != taxa or o["taxa_grp"] != pop["grp"]: bad.append("%s: taxa labels / groups not in the population's order" % tag)
+        elif which == "embvmat":
+            chk("mat", gebv, "breeding values of the homozygous parents", 2.0 ** -26)
+            if o["taxa"] != taxa or o["taxa_grp"] != pop["grp"]: bad.append("%s: taxa labels / groups not in the population's order" % tag)
+    seen = []
+    for b in bad:
+        if b not in seen: seen.append(b)
+    return seen[:8]
+
+# ------------------------------------------------------------------------------------------------ special cases
+def run_special(case):
+    k = case["kind"]
+    if k == "classes":
+        return {"concrete": enumerate_concrete()}
+    if k == "stub":
+        import importlib
+        cls = getattr(importlib.import_module(P + "MultiObjectiveGenomicMatingProblem"), "MultiObjectiveGenomicSubsetMatingProblem")
+        n, p = 3, 2
+        pr = cls(geno=numpy.array([[0, 1], [2, 1], [1, 1]], dtype="int8"), ploidy=2, mkrwt=numpy.ones((p, 1)), tfreq=numpy.full((p, 1), 0.5),
+                 decn_space_xmap=numpy.array([[0, 1], [0, 2], [1, 2]]), **_space("Subset", n))
+        return {"latent": _lat(pr, numpy.array([0, 1]))}
+    if k == "nlatent":
+        c = case["case"]
+        pr = make_problem(c["fam"], "Subset", c["data"], len(c["s"]), c["eval"])
+        return {"nlatent": int(pr.nlatent), "len": len(pr.latentfn(numpy.array(c["s"], dtype=int)))}
+    raise ValueError(k)
+
+def pred_special(case, out):
+    k = case["kind"]
+    if "exc" in out: return ["%s case raised %s: %s" % (k, out["exc"], out["msg"])]
+    if k == "classes":
+        have = out["concrete"]
+        mapped = {c: m for fam in FAMILIES for (m, c) in family_classes(fam).values()}
+        bad = []
+        for nme, mod in sorted(have.items()):
+            if nme not in mapped and nme not in SKIPPED: bad.append("concrete problem class %s (%s) is neither mapped to a criterion family nor skipped with a reason" % (nme, mod))
+            elif nme in mapped and mapped[nme] != mod: bad.append("class %s found in %s, expected %s" % (nme, mod, mapped[nme]))
+        for nme in list(mapped) + list(SKIPPED):
+            if nme not in have: bad.append("class %s of the family table no longer exists as a concrete class" % nme)
+        return bad[:8]
+    if k == "stub":
+        o = out["latent"]
+        return [] if isinstance(o, dict) and o.get("exc") == "Exception" else ["MultiObjectiveGenomicSubsetMatingProblem.latentfn no longer raises: map it to a family"]
+    if k == "nlatent":
+        return [] if out["nlatent"] == out["len"] else ["nlatent = %d but latentfn returns %d values (family %s)" % (out["nlatent"], out["len"], case["case"]["fam"])]
+
+# ------------------------------------------------------------------------------------------------ protocol
+def run_impl(case):
+    k = case["kind"]
+    if k == "latent": return run_latent(case)
+    if k == "factory": return run_factory(case)
+    return run_special(case)
+
+def pred(case, out):
+    if "exc" in out and "msg" in out and "tb" in out:
+        return ["implementation driver raised %s: %s" % (out["exc"], out["msg"])]
+    k = case["kind"]
+    if k == "latent": return pred_latent(case, out)
+    if k == "factory": return pred_factory(case, out)
+    return pred_special(case, out)
+
+def emit_case(case, out):
+    if case["kind"] != "latent": return None
+    if "exc" in out and "tb" in out: return "false"
+    return emit_latent(case, out)
+
+def _bad_size(N):
+    return (1.0 / N) * N != 1.0
+
+def classify(case, out, clauses):
+    """narrow mapping of a failing case to a known finding: every clause must belong to the finding's pattern"""
+    k = case["kind"]
+    if not clauses: return None
+    if k == "nlatent":
+        return "C05-pafd-pau-nlatent" if case["case"]["fam"] in ("pafd", "pau") else None
+    if k == "latent":
+        fam, d, s = case["fam"], case["data"], case["s"]
+        if fam in ("pau", "mogs"):
+            if not all(c.startswith("subset latent vector != definition") for c in clauses): return None
+            if fam == "pau" and any(v in (0.0, 1.0) for r in d["tfreq"] for v in r): return "C05-pau-tmajor"
+            N = d["ploidy"] * len(s)
+            if _bad_size(N) and any(sum(d["geno"][i][j] for i in s) == N for j in range(len(d["geno"][0]))): return "C05-pfreq-reciprocal"
+            return None
+        if fam in GUARDED:
+            tot = sum(case["xr"]); a = case["a"]
+            if (0 < tot < EPS or 0 < a * tot < EPS) and all(c.startswith("xr latent vector != definition on x/sum(x)") or c.startswith("latent vector changes under positive rescaling") for c in clauses):
+                return "C05-guard-scale"
+        return None
+    if k == "factory":
+        w, A = case["which"], case["args"]
+        if w == "embv" and all("embv != expected maximum breeding value" in c or (A["nrep"] > len(case["pop"]["labels"]) and "factory raised IndexError" in c) for c in clauses):
+            return "C05-embv-index-shadow"              # row nrep-1 is written: garbage elsewhere, IndexError when nrep exceeds the number of crosses
+        X, u, beta, gebv, f = pop_truth(case["pop"])
+        if w == "wgs":
+            if A["phased"] and all("must have dimension equal to 2" in c for c in clauses): return "C05-wgs-factory-phased"
+            if not A["phased"] and bool(numpy.any(f == 0)) and all("gwgebv != weighted breeding values" in c for c in clauses): return "C05-wgs-factory-nan"
+        if w == "wgebvmat" and bool(numpy.any(f == 1)) and all("mat != arcsine-weighted" in c for c in clauses): return "C05-wgebvmat-fixed-nan"
+    return None
+
+def nontrivial(case, out):
+    if case["kind"] == "latent":
+        return _ncand(case["fam"], case["data"]) >= 3 and len(set(case["s"])) >= 2
+    if case["kind"] == "factory":
+        return len(case["pop"]["labels"]) >= 3
+    return True
+
+def describe(case, out):
+    k = case["kind"]
+    if k == "latent":
+        n, s = _ncand(case["fam"], case["data"]), case["s"]
+        return {"kind": k, "family": case["fam"], "k": len(s) if len(s) <= 8 else "49+", "repeats": len(set(s)) < len(s),
+                "candidates": n if n <= 8 else "49+", "guard": case.get("guard", "-"), "obj_trans": case["eval"]["obj"][0][0], "ineq_trans": case["eval"]["ineq"][0][0]}
+    if k == "factory":
+        return {"kind": k, "factory": case["which"], "ntaxa": len(case["pop"]["labels"])}
+    return {"kind": k}
+
+def gen_cases(rng, tier):
+    q = tier == "quick"
+    cases = [{"kind": "classes"}, {"kind": "stub"}]
+    per = 22 if q else 180
+    for fam in FAMILIES:
+        for _ in range(per):
+            cases.append(gen_latent(rng, fam))
+        if fam in ("pafd", "pau", "mogs"):
+            for _ in range(14 if q else 80):
+                cases.append(gen_latent(rng, fam, "badn"))
+        if fam not in SUBSET_ONLY:
+            for _ in range(4 if q else 30):
+                cases.append(gen_guard(rng, fam))
+        cases.append({"kind": "nlatent", "case": gen_latent(rng, fam)})
+    for w in FACTORIES:
+        for _ in range(5 if q else 40):
+            cases.append(gen_factory(rng, w))
+    return cases
+
+def shrink(case, fails):
+    """latent cases: drop traits / shorten the selection while the predicate still fails"""
+    import copy
+    if case["kind"] != "latent": return case
+    cur = copy.deepcopy(case)
+    while len(cur["s"]) > 1:
+        t = copy.deepcopy(cur); t["s"] = t["s"][:-1]; t["perm"] = list(range(len(t["s"])))[::-1]
+        if t["fam"] == "gb": t["data"]["nbestfndr"] = min(t["data"]["nbestfndr"], len(t["s"]))
+        try:
+            if fails(t): cur = t
+            else: break
+        except Exception: break
+    return cur
